@@ -4953,6 +4953,26 @@ class DecRoAffine(RoAffine):
 
         return DecRoAffine(expr, self.event_adapt, self.ctype)
 
+    def __getitem__(self, item):
+
+        # entries of the array keep its events and its expectation tag
+        expr = super().__getitem__(item)
+
+        return DecRoAffine(expr, self.event_adapt, self.ctype)
+
+    def reshape(self, shape):
+
+        expr = super().reshape(shape)
+
+        return DecRoAffine(expr, self.event_adapt, self.ctype)
+
+    @property
+    def T(self):
+
+        expr = super().T
+
+        return DecRoAffine(expr, self.event_adapt, self.ctype)
+
     def __neg__(self):
 
         expr = super().__neg__()
